@@ -167,13 +167,23 @@ def handle (args : List String) : String :=
   | ["scatter", f, s, ix, src, d] => (do
       let s ← pShape s; let ix ← pShape ix; let src ← pShape src; let d ← pInt d
       let isAdd := f == "scatter_add"
-      pure (out (scatter.term isAdd ix.length src.length d) (rS (scatter.model isAdd s ix src d)) (rS (scatter.spec s ix src d)))).getD bad
+      pure (out (scatter.term isAdd ix src d) (rS (scatter.model isAdd s ix src d)) (rS (scatter.spec s ix src d)))).getD bad
   | ["pixel_shuffle", s, r] => (do
       let s ← pShape s; let r ← pInt r
-      pure (out (pixel_shuffle.term s.length r) (rS (pixel_shuffle.model s r)) (rS (pixel_shuffle.spec s r)))).getD bad
+      pure (out (pixel_shuffle.term s r) (rS (pixel_shuffle.model s r)) (rS (pixel_shuffle.spec s r)))).getD bad
   | ["pixel_unshuffle", s, r] => (do
       let s ← pShape s; let r ← pInt r
       pure (out (pixel_unshuffle.term r) (rS (pixel_unshuffle.model s r)) (rS (pixel_unshuffle.spec s r)))).getD bad
+  | ["softmax", kind, s, d, ci, co] => (do
+      let kind ← pInt kind; let s ← pShape s; let d ← pInt d; let ci ← pBool ci; let co ← pOptInt co
+      pure (out (softmax.term kind.toNat s.length d ci (co.map Int.toNat)) (rS (softmax.model s d)) (rS (softmax.spec s d)))).getD bad
+  | ["linear", x, w, b, _] => (do
+      let x ← pShape x; let w ← pShape w; let b ← (if b == "N" then some none else (pShape b).map some)
+      pure (out (linear.term x.length w.length b.isSome) (rS (linear.model x w b)) (rS (linear.spec x w b)))).getD bad
+  | ["vector_norm", o, s, z, k] => (do
+      let s ← pShape s; let z ← pOptInts z; let k ← pBool k
+      let o ← (if o == "inf" then some vector_norm.Ord.posInf else if o == "-inf" then some vector_norm.Ord.negInf else (pInt o).map vector_norm.Ord.int)
+      pure (out (vector_norm.term s.length o z k) (rS (vector_norm.model s z k)) (rS (vector_norm.spec s z k)))).getD bad
   | ["sum", s] => (do
       let s ← pShape s
       pure (out (sum.term s.length) (rS (sum.model s)) (rS (sum.spec s)))).getD bad
@@ -228,9 +238,9 @@ def handle (args : List String) : String :=
   | ["prod", s, i] => (do
       let s ← pShape s; let i ← pBool i
       pure (out (prod.term i) (rS (prod.model s)) (rS (prod.spec s)))).getD bad
-  | ["cumsum", s, d] => (do
-      let s ← pShape s; let d ← pInt d
-      pure (out (cumsum.term s.length d) (rS (cumsum.model s d)) (rS (cumsum.spec s d)))).getD bad
+  | ["cumsum", s, d, c, _] => (do
+      let s ← pShape s; let d ← pInt d; let c ← pOptInt c
+      pure (out (cumsum.term s.length d (c.map Int.toNat)) (rS (cumsum.model s d)) (rS (cumsum.spec s d)))).getD bad
   -- integer arithmetic with two ints
   | ["floor_divide_s", a, b] => (do
       let a ← pInt a; let b ← pInt b
@@ -261,6 +271,9 @@ def handle (args : List String) : String :=
   | ["conv", s, w, st, pd, dl, tr, op, g] => (do
       let s ← pShape s; let w ← pShape w; let st ← pIL st; let pd ← pIL pd; let dl ← pIL dl; let tr ← pBool tr; let op ← pInts op; let g ← pInt g
       pure (out (conv.term s w st pd dl tr op g.toNat) (rS (conv.model s w st pd dl tr op g.toNat)) (rS (conv.spec s w st pd dl tr op g.toNat)))).getD bad
+  | ["convnd", s, w, hb, st, pd, dl, g] => (do
+      let s ← pShape s; let w ← pShape w; let hb ← pBool hb; let st ← pInts st; let pd ← pInts pd; let dl ← pInts dl; let g ← pInt g
+      pure (out (convnd.term s w hb st pd dl g.toNat) (rS (convnd.model s w hb st pd dl g.toNat)) (rS (convnd.spec s w st pd dl g.toNat)))).getD bad
   | ["pad", s, pd, kind, arg] => (do
       let s ← pShape s; let pd ← pInts pd
       let t := if kind == "c" then pad.termConst s.length pd arg else if kind == "n" then pad.termMode s.length pd "constant" else pad.termMode s.length pd arg
